@@ -135,13 +135,17 @@ def _asyncgen_frame_state(agen: AsyncGenerator) -> str:
     frame = agen.ag_frame
     if frame is None:
         return "closed"
-    if frame.f_back is not None:
-        # a generator's frame is linked to a caller only while it is executing
-        return "running"
     lasti = frame.f_lasti
     if lasti < 0 or agen.ag_code.co_code[lasti] == _RETURN_GENERATOR:
         return "created"
-    return "suspended"
+    # Started and not finished: suspended or executing?
+    suspended = getattr(agen, "ag_suspended", None)
+    if suspended is None:
+        # Before Python 3.12 the only hint is that a generator's frame is linked to
+        # a caller while it executes.  (It is not during the short window in which
+        # the generator closes the awaitable it is delegating to.)
+        suspended = frame.f_back is None
+    return "suspended" if suspended else "running"
 
 
 def coro_is_new(coro: Suspendable) -> bool:
